@@ -13,6 +13,10 @@ theorem PTDP_eq_sound (a b : PTDP.State) (h : PTDP.eq a b = true) : (PTDP.pack a
   obtain ⟨⟨⟨h1, _⟩, h3⟩, h4⟩ := h
   rw [ptdp_pack_snd, ptdp_pack_snd, h1, h3, h4]
 
+/-- non-vacuity: equal although the low-latency marking (which is not encoded) differs -/
+example : PTDP.eq { PTDP.fresh with payload := [1, 2, 3], length := 3, fragment := 3, content := 4 }
+    { PTDP.fresh with payload := [1, 2, 3], length := 3, fragment := 3, content := 4, low_latency := true } = true := by decide
+
 /-- the object decoded (into any prior state) from a's encoding compares equal to a as pack left it -/
 theorem PTDP_eq_decode (a t : PTDP.State) (h : PTDP_WF a) :
     ∃ b, (PTDP.pack a).2 = .ok b ∧ (PTDP.unpack t b).2 = .ok [] ∧
@@ -23,6 +27,8 @@ theorem PTDP_eq_decode (a t : PTDP.State) (h : PTDP_WF a) :
   rw [hu, ptdp_pack_eq a h]
   simp [PTDP.eq]
 
+example : PTDP_WF { PTDP.fresh with payload := [1, 2, 3], fragment := 3, content := 4 } := by simp [PTDP_WF]
+
 theorem PTFR_eq_sound (a b : PTFR.State) (h : PTFR.eq a b = true) (ho : a.length = b.length) :
     (PTFR.pack a).2 = (PTFR.pack b).2 := by
   simp only [PTFR.eq, Bool.and_eq_true, beq_iff_eq] at h
@@ -31,9 +37,19 @@ theorem PTFR_eq_sound (a b : PTFR.State) (h : PTFR.eq a b = true) (ho : a.length
   repeat' split
   all_goals simp_all
 
+example :
+    let a : PTFR.State := { PTFR.fresh with streamid := 1, llp := true, ptdp_offset := 0x7FF, length := 2, payload := [9, 9] }
+    PTFR.eq a a = true ∧ a.length = a.length := ⟨by decide, rfl⟩
+
 theorem PTFR_eq_decode (a t : PTFR.State) (h : PTFR_WF a) (hL : a.payload.length ≤ t.length) :
     ∃ b, (PTFR.pack a).2 = .ok b ∧ (PTFR.unpack t b).2 = .ok () ∧ PTFR.eq a (PTFR.unpack t b).1 = true := by
   obtain ⟨b, hp, hu⟩ := C10.PTFR_roundtrip a t h hL
   exact ⟨b, hp, by rw [hu], by rw [hu]; simp [PTFR.eq]⟩
+
+example :
+    let a : PTFR.State := { PTFR.fresh with streamid := 1, llp := true, ptdp_offset := 0x7FF, length := 2, payload := [9, 9] }
+    let t : PTFR.State := { PTFR.fresh with length := 2, payload := [1, 2, 3], version := 3 }
+    PTFR_WF a ∧ a.payload.length ≤ t.length := by
+  simp [PTFR_WF, PTFR.fresh]
 
 end Acra.Props.C14
